@@ -65,6 +65,7 @@ type site struct {
 	fn        func(*call)
 	line      int // 0: not generated, no static expectation
 	function  string
+	inl       []frame // frames between the logging call and the recording function (inlinable helpers), innermost first
 }
 
 func (s *site) id() string { return s.recv + "." + s.method }
@@ -538,6 +539,14 @@ func (w *worker) check(c *call, cfg *caseCfg) {
 	w.evals++
 	st := cfg.st
 	vw := w.view()
+	if len(st.inl) > 0 && len(vw.frames) > 0 {
+		// the recording function is the helper's caller; the helper frames lie in the same file
+		fr := make([]frame, 0, len(st.inl)+len(vw.frames))
+		for _, f := range st.inl {
+			fr = append(fr, frame{f.Fn, vw.frames[0].File, f.Line})
+		}
+		vw = &view{frames: append(fr, vw.frames...), stacks: map[int]string{}}
+	}
 	frames := vw.frames
 	base := func() map[string]any {
 		m := map[string]any{"phase": cfg.phase, "site": st.id(), "config": cfg.desc, "level": cfg.lvlName, "caller_skip": cfg.skip, "stack": cfg.stackCfg, "captured_depth": cfg.depth}
@@ -550,7 +559,7 @@ func (w *worker) check(c *call, cfg *caseCfg) {
 		ev.ToolError("site %s did not record its own frames", st.id())
 	}
 	if st.line != 0 {
-		f0 := frames[0]
+		f0 := frames[len(st.inl)]
 		if f0.Fn != st.function || f0.Line != st.line || filepath.Base(f0.File) != genFileBase {
 			ev.ToolError("harness self-check: site %s recorded %v, generator wrote %s:%d %s", st.id(), f0, genFileBase, st.line, st.function)
 		}
@@ -983,6 +992,78 @@ func main() {
 	})
 
 	lap("A")
+	// ---- phase A2: call sites in functions small enough to be inlined (family I: the call site
+	// itself; family M: the frame one out of the call site), every front-end method, caller skip 0..2
+	{
+		w := newWorker()
+		w.wantSamp = 2
+		inlined := 0
+		for _, st := range genInlSites {
+			for k := 0; k <= 2; k++ {
+				for sm := 0; sm < 2; sm++ {
+					var thr *stackThr
+					scfg := "off"
+					if sm == 1 {
+						thr, scfg = thrAll, thrAll.name
+					}
+					base := baseLogger(w.sk, true, k, thr)
+					lvls := []zapcore.Level{zapcore.InfoLevel}
+					if st.fe == feLogger || st.fe == feSugar {
+						lvls = levelsOf(st)
+					}
+					for _, lvl := range lvls {
+						c := &call{st: st, r: w.r, lvl: lvl, ctx: context.Background(), slvl: slog.LevelInfo}
+						cfg := &caseCfg{phase: "inlined-sites", st: st, skip: k, stackSkip: k, wantCall: true, wantStack: sm == 1, lvlName: lvl.String(), stackCfg: scfg, rel: "level>=threshold", fieldSkip: -1,
+							desc:   fmt.Sprintf("New(AddCaller, AddCallerSkip(%d)), call site reached through %d inlinable helper frame(s)", k, len(st.inl)),
+							replay: map[string]any{"helpers": fmt.Sprint(st.inl), "base_skip": k}}
+						switch st.fe {
+						case feLogger:
+							c.l = base
+							cfg.wantPanic = zapPanics(lvl)
+						case feSugar:
+							c.s = base.Sugar()
+							cfg.wantPanic = zapPanics(lvl)
+						case feStd:
+							c.std, _ = zap.NewStdLogAt(base, zapcore.InfoLevel)
+							cfg.wantPanic = st.stdPanics
+						case feStdPkg:
+							continue // redirects the process-global logger: covered by its own phase
+						case feSlog:
+							opts := []zapslog.HandlerOption{zapslog.WithCaller(true), zapslog.WithCallerSkip(k)}
+							if sm == 1 {
+								opts = append(opts, zapslog.AddStacktraceAt(slog.Level(-100)))
+							} else {
+								opts = append(opts, zapslog.AddStacktraceAt(slog.Level(100))) // the handler's default is Error
+							}
+							c.sl = slog.New(zapslog.NewHandler(capCore{w.sk}, opts...))
+							cfg.slogSkipK = k
+							if st.hasLvl {
+								cfg.lvlName = "INFO"
+							} else {
+								c.slvl = st.slogLevel
+								cfg.lvlName = st.slogLevel.String()
+							}
+						}
+						w.sk.reset()
+						c.run(0)
+						if len(w.sk.ents) == 1 && k < len(st.inl) {
+							if fr, _ := runtime.CallersFrames([]uintptr{w.sk.ents[0].Caller.PC + 1}).Next(); fr.Func == nil && fr.Function != "" {
+								inlined++
+							}
+						}
+						w.check(c, cfg)
+					}
+				}
+			}
+		}
+		if inlined == 0 {
+			ev.ToolError("phase A2: the compiler inlined none of the %d helper call sites (built with -gcflags=-l?)", len(genInlSites))
+		}
+		inlinedCallers = inlined
+		collect("A2-inlined-sites", 0, w)
+	}
+
+	lap("A2")
 	// ---- phase B: stack depth x threshold x level x method x skip x caller on/off
 	type dcase struct {
 		D      int
@@ -1472,19 +1553,22 @@ func main() {
 		"distinct_nontrivial": len(classes),
 		"rule": fmt.Sprintf("every kind-correct chain of length <=%d over {Sugar, Desugar, With, WithLazy, Named, WithOptions(), WithOptions(AddCallerSkip(1)), WithOptions(AddCallerSkip(-1)) [running total may be negative, final total >= 0]} x every generated *Logger / *SugaredLogger logging method (level-parameter methods at all 7 levels, Check+Write) x base AddCallerSkip 0..3 x stack off/on; "+
 			"captured depth %s (+ goroutine-entry sites) x 8 level thresholds x 7 levels x every method x skip 0..3 x AddCaller on/off, incl. std-log bridge, zap.Stack/StackSkip fields and zapslog with 9 slog levels; all 128 level subsets as stack enabler; "+
-			"NewStdLog/NewStdLogAt/RedirectStdLog/RedirectStdLogAt (7 levels) x every print method and zap.L()/zap.S() over chains of length <=%d; slog With/WithGroup chains <=%d x 10 thresholds; path alphabet for TrimmedPath. "+
+			"every generated method again from call sites reached through one or two inlinable helper functions (the reported frame is an inlined frame), skip 0..2, stack off/on; NewStdLog/NewStdLogAt/RedirectStdLog/RedirectStdLogAt (7 levels) x every print method and zap.L()/zap.S() over chains of length <=%d; slog With/WithGroup chains <=%d x 10 thresholds; path alphabet for TrimmedPath. "+
 			"distinct = distinct (phase, method, level, configured skip, stack configuration, caller on/off, captured depth) tuples and distinct path inputs; every one executes a real log call whose entry is compared",
 			maxLen, depthDesc(depthList), stdLen, slogLen),
-		"samples":              samples,
-		"exhaustive":           true,
-		"chains":               len(chains),
-		"generated_sites":      map[string]int{"Logger": len(loggerSites), "SugaredLogger": len(sugarSites), "log.Logger": len(stdSites), "log (package)": len(stdPkgSites), "slog.Logger": len(slogSites)},
-		"non_logging_methods":  genOtherMethods,
-		"std_methods_skipped":  genStdSkipped,
-		"evaluations_by_phase": pe,
-		"depths":               depthDesc(depthList),
+		"samples":                samples,
+		"exhaustive":             true,
+		"chains":                 len(chains),
+		"generated_sites":        map[string]int{"Logger": len(loggerSites), "SugaredLogger": len(sugarSites), "log.Logger": len(stdSites), "log (package)": len(stdPkgSites), "slog.Logger": len(slogSites)},
+		"non_logging_methods":    genOtherMethods,
+		"std_methods_skipped":    genStdSkipped,
+		"evaluations_by_phase":   pe,
+		"depths":                 depthDesc(depthList),
+		"inlinable_helper_sites": map[string]int{"generated": len(genInlSites), "calls_whose_reported_frame_was_an_inlined_frame": inlinedCallers},
 	})
 }
+
+var inlinedCallers int
 
 func depthDesc(d []int) string {
 	if len(d) > 30 {
